@@ -321,8 +321,87 @@ def live_case(acc, m, op, split):
         w.close()
 
 
+def semantic_faults():
+    """Frames that are well-formed for the decoder but that the session layer cannot digest."""
+    H = [(49, "CLI"), (56, "SRV")]
+    T = [(52, "20230101-00:00:00.000")]
+    return [
+        ("seqnum-nonnumeric", ref_encode("D", H + [(34, "2x")] + T + [(11, "a")])),
+        ("seqnum-empty-ish", ref_encode("D", H + [(34, " ")] + T + [(11, "a")])),
+        ("seqnum-float", ref_encode("0", H + [(34, "2.0")] + T)),
+        ("seqnum-huge", ref_encode("0", H + [(34, "9" * 400)] + T)),
+        ("seqnum-duplicated", ref_encode("D", H + [(34, 2), (34, 2)] + T + [(11, "a")])),
+        ("resend-begin-nonnumeric", ref_encode("2", H + [(34, 2)] + T + [(7, "abc"), (16, 0)])),
+        ("resend-fields-missing", ref_encode("2", H + [(34, 2)] + T)),
+        ("seqreset-newseqno-missing", ref_encode("4", H + [(34, 2)] + T + [(123, "Y")])),
+        ("seqreset-newseqno-nonnumeric", ref_encode("4", H + [(34, 2)] + T + [(36, "x")])),
+        ("heartbeat-testreqid-text", ref_encode("0", H + [(34, 2)] + T + [(112, "abc")])),
+        ("logon-again-without-fields", ref_encode("A", H + [(34, 2)] + T)),
+        ("no-msgtype", b"".join([ref_encode("0", H + [(34, 2)] + T)]).replace(b"35=0\x01", b"58=0\x01")),
+        ("sendingtime-repeated-after-group", ref_encode("D", H + [(34, 2)] + T + [(453, 1), (448, "p"), (52, "x"), (11, "a")])),
+    ]
+
+
+def live_semantic(acc, m, op, split):
+    """m is a frame the decoder accepts; whatever the session layer makes of it, the frames behind it
+    must still reach the dispatcher (unless the endpoint legitimately disconnected)."""
+    from asyncfix.connection import ConnectionState
+    from vlib.simnet import acceptor_world
+
+    if ref_check_all(m) - {"bodylength", "checksum"}:
+        pass
+    # re-frame after the textual edit of 'no-msgtype' (checksum unchanged by a same-length swap? recompute)
+    parts = m[:-1].split(SOH)
+    if parts[-1].startswith(b"10="):
+        pre = m[: len(m) - len(parts[-1]) - 1]
+        m = pre + b"10=" + ref_checksum(pre) + SOH
+    vs = [ref_msg("D", "CLI", "SRV", 2 + i, [(11, f"v{i}"), (58, "payload")]) for i in range(6)]
+    case = {"malformed": m, "op": op, "split": split, "semantic": True}
+    w, s, link = acceptor_world()
+    try:
+        r = link.readers["s"]
+        n0 = len(s.dispatched)
+        if split == "one-read":
+            r.feed(m + b"".join(vs))
+            w.idle()
+        else:
+            r.feed(m)
+            w.idle()
+            for v in vs:
+                r.feed(v)
+                w.idle()
+        kick = ref_msg("0", "CLI", "SRV", 8)
+        r.feed(kick)
+        w.idle()
+        got = s.dispatched[n0:]
+        task = s._aio_task_socket_read
+        if task.done():
+            acc.violation(f"C10:live/reader-task-died/{op}", f"reader task ended: {task!r}", case)
+            return
+        disconnected = s.connection_state <= ConnectionState.DISCONNECTED_BROKEN_CONN
+        owed = vs + [kick]
+        if disconnected:
+            acc.case((m, split), cls=[f"live-semantic/{split}", "live-semantic/disconnected", f"op={op}"])
+            return
+        tail = got[-len(owed):]
+        if tail != owed:
+            still = [v for v in owed if v not in got]
+            acc.violation(f"C10:live/blocked-following-frames/{op}/{split}",
+                          f"{len(still)} of {len(owed)} valid frames after a decodable but semantically broken frame never reached the dispatcher "
+                          f"(state={s.connection_state!r}, buffer={len(s._msg_buffer)}B); frame={m[:160]!r}", case)
+        elif s._msg_buffer:
+            acc.violation(f"C10:live/buffer-not-drained/{op}/{split}", f"receive buffer holds {len(s._msg_buffer)} bytes after the last read", case)
+        acc.case((m, split), cls=[f"live-semantic/{split}", "live-semantic/still-connected", f"op={op}"],
+                 sample={"live": op, "frame": m.decode("latin-1"), "split": split} if len(acc.samples) < 8 and op == "seqnum-nonnumeric" else None)
+    finally:
+        w.close()
+
+
 def live(acc, seed, stride):
     frames = corpus()
+    for op, m in semantic_faults():
+        for split in ("one-read", "separate-reads"):
+            live_semantic(acc, m, op, split)
     k = 0
     for fi, f in enumerate(frames[:6]):
         for op, g in grammar_faults(f):
@@ -370,7 +449,9 @@ def plan(tier, seed):
 
 
 def replay(acc, case):
-    if "malformed" in case:
+    if case.get("semantic"):
+        live_semantic(acc, case["malformed"], case["op"], case["split"])
+    elif "malformed" in case:
         live_case(acc, case["malformed"], case["op"], case["split"])
     else:
         judge_decode(acc, case["buf"], case["op"])
